@@ -521,6 +521,11 @@ _run_clauses = run
 def run(prog, rep):
     _run_clauses(prog, rep)
     from plint.wiring import check_zero_init
+    from plint.wiring import destroy_before_free
+    _ff = prog.unit("prwlock-posix.c").fn("p_rwlock_free")
+    _db = destroy_before_free(_ff, "pthread_rwlock_destroy")
+    rep.ob("C02.1", _ff, "free:destroy", not _db, "p_rwlock_free destroys the native object (pthread_rwlock_destroy) before it releases the memory, on every path" if not _db else
+           "line %d: %s: the native lock is never destroyed" % _db[0], _db[0][0] if _db else _ff.loc[0])
     check_zero_init(rep, "C02.3", prog, ['prwlock-general.c', 'prwlock-posix.c'], 1)
 
 # generic robustness battery: renaming every local/parameter in these files must not change any verdict
